@@ -21,6 +21,54 @@ var searchFuncs = map[string]int{ // name → index of the needle argument
 }
 
 // tagDerived reports whether a layout contains a tag-valued atom.
+// tagParamSites: the needle of a search inside fn contains a parameter of fn — a helper introduced after the rules were written,
+// not part of their vocabulary — and at every static call site of fn the argument for that parameter is itself tag-derived:
+// the number of those call sites (0 if the atom is not such a parameter).
+func tagParamSites(fn *ssa.Function, atom string) int {
+	if fn == nil || fn.Pkg == nil || an.IsKnown(fn) {
+		return 0
+	}
+	for i, prm := range fn.Params {
+		if an.Render(prm) != atom {
+			continue
+		}
+		n := 0
+		for _, caller := range pkgFuncs(fn.Pkg) {
+			bad := false
+			an.AllInstrs(caller, func(in ssa.Instruction) {
+				cc := an.CallOf(in)
+				if cc == nil || an.StaticCallee(cc) != fn || i >= len(cc.Args) {
+					return
+				}
+				ev := &an.SeqEval{}
+				if tagDerivedIn(caller, ev.Eval(cc.Args[i]).Norm()) {
+					n++
+				} else {
+					bad = true
+				}
+			})
+			if bad {
+				return 0
+			}
+		}
+		return n
+	}
+	return 0
+}
+
+// tagDerivedIn is tagDerived for a needle built inside fn: a parameter that only ever receives tags counts as one.
+func tagDerivedIn(fn *ssa.Function, s an.Seq) bool {
+	if tagDerived(s) {
+		return true
+	}
+	for _, p := range s {
+		if p.Atom != "" && tagParamSites(fn, p.Atom) > 0 {
+			return true
+		}
+	}
+	return false
+}
+
 func tagDerived(s an.Seq) bool {
 	for _, p := range s {
 		if p.Atom == "" {
@@ -84,7 +132,7 @@ func runC18(c *core.Ctx, o Options) {
 		}
 	}
 	c.RuleMin = map[string]int{"needle": 10, "raw": 4}
-	c.MinObl = 16
+	c.MinObl = 13
 }
 
 func isByte(p an.Part, b byte) bool { return p.Atom == "" && len(p.Bytes) == 1 && p.Bytes[0] == b }
@@ -136,12 +184,20 @@ func needleCensus(c *core.Ctx, rule string, scope []*ssa.Function) int {
 			hay := an.Render(call.Call.Args[0])
 			shape := needle.String()
 			parts := splitConst(needle)
-			isTag := tagDerived(needle)
+			isTag := tagDerivedIn(fn, needle)
 			isEOM := shape == "'10='"
 			key := fmt.Sprintf("%s(%s, %s)", name, hay, shape)
 			switch {
 			case isTag:
 				nTag++
+				// a search in a helper that receives the tag stands for one search per call site of the helper
+				if !tagDerived(needle) {
+					for _, p := range needle {
+						if k := tagParamSites(fn, p.Atom); p.Atom != "" && k > 1 {
+							nTag += k - 1
+						}
+					}
+				}
 				ob := c.Ob(rule, an.NameOf(fn), key, call.Pos())
 				anchored := len(parts) == 3 && isByte(parts[0], 1) && parts[1].Atom != "" && isByte(parts[2], '=')
 				startForm := len(parts) == 2 && parts[0].Atom != "" && isByte(parts[1], '=')
